@@ -30,6 +30,7 @@ def showLog (l : List BOp) : String :=
 def octet : String := Hex.encodeTok (strBytes "application/octet-stream")
 
 def driveOk (u : UState) : List String → UState × String
+  | ["flaky", _] => (u, "ok")   -- the registry turns one request down (429) and the caller retries: invisible to the model
   | ["init", stack, hint, minc] =>
     match hint.toInt?, minc.toNat? with
     | some h, some m => ({ stack := stack, hint := h, minCh := m }, "ok")
